@@ -149,6 +149,7 @@ PROPS = {
             part('matrix', ACTIONS, 500, 10000, monitors=[M.mon_c01], props=['C01'], sub='matrix'),
             part('duel', ACTIONS, 300, 6000, monitors=[M.mon_c01], props=['C01'], sub='duel'),
             part('b2b', ACTIONS, 900, 12000, monitors=[M.mon_c01], props=['C01'], sub='b2b'),
+            part('timeout', TIMEOUT, 250, 5000, monitors=[M.mon_c01], props=['C01'], chunk=80),
             part('flow-sqlite', FLOW, 40, 800, monitors=[M.mon_c01], props=['C01'], sub='plain', variants=1, scheds=['cur-fifo', 'cur-chaos'], snap='live', store='sqlite', restart=0.6, chunk=8),
             part('error-sqlite', ERROR, 40, 800, monitors=[M.mon_c01], props=['C01'], store='sqlite', restart=0.6, chunk=8, snap='live'),
         ],
@@ -166,6 +167,7 @@ PROPS = {
             part('gen', GEN, 200, 4000, monitors=[M.mon_c02], props=['C02'], chunk=60, sub='gen'),
             part('sub', SUB, 200, 4000, monitors=[M.mon_c02], props=['C02'], chunk=60),
             part('b2b', ACTIONS, 900, 12000, monitors=[M.mon_c02], props=['C02'], sub='b2b'),
+            part('timeout', TIMEOUT, 250, 5000, monitors=[M.mon_c02], props=['C02'], chunk=80),
             part('flow-sqlite', FLOW, 40, 800, monitors=[M.mon_c02], props=['C02'], sub='plain', variants=1, scheds=['cur-fifo', 'cur-chaos'], snap='live', store='sqlite', restart=0.6, chunk=8),
             part('error-sqlite', ERROR, 40, 800, monitors=[M.mon_c02], props=['C02'], store='sqlite', restart=0.6, chunk=8, snap='live'),
         ],
@@ -181,6 +183,7 @@ PROPS = {
             part('loop', FLOW, 60, 600, monitors=[M.mon_c03], props=['C03'], sub='loop', variants=2, scheds=QUIESCENT),
             part('error', ERROR, 300, 6000, monitors=[M.mon_c03], props=['C03'], chunk=60, second_error=True),
             part('b2b', ACTIONS, 900, 12000, monitors=[M.mon_c03], props=['C03'], sub='b2b'),
+            part('timeout', TIMEOUT, 250, 5000, monitors=[M.mon_c03], props=['C03'], chunk=80),
             part('flow-sqlite', FLOW, 40, 800, monitors=[M.mon_c03], props=['C03'], sub='plain', variants=1, scheds=['cur-fifo', 'cur-chaos'], snap='rows', store='sqlite', restart=0.6, chunk=8),
             part('error-sqlite', ERROR, 40, 800, monitors=[M.mon_c03], props=['C03'], store='sqlite', restart=0.6, chunk=8, snap='rows'),
         ],
@@ -198,6 +201,7 @@ PROPS = {
             part('hooks', GEN, 200, 4000, monitors=[M.mon_c08], props=['C08'], chunk=60, sub='hooks'),
             part('sub', SUB, 200, 4000, monitors=[M.mon_c08], props=['C08'], chunk=60),
             part('b2b', ACTIONS, 900, 12000, monitors=[M.mon_c08], props=['C08'], sub='b2b'),
+            part('timeout', TIMEOUT, 250, 5000, monitors=[M.mon_c08], props=['C08'], chunk=80),
             part('flow-sqlite', FLOW, 40, 800, monitors=[M.mon_c08], props=['C08'], sub='plain', variants=1, scheds=['cur-fifo', 'cur-chaos'], snap='live', store='sqlite', restart=0.6, chunk=8),
             part('error-sqlite', ERROR, 40, 800, monitors=[M.mon_c08], props=['C08'], store='sqlite', restart=0.6, chunk=8, snap='live'),
             part('twoack', ACTIONS, 100, 2000, monitors=[M.mon_c08, M.mon_c08_mirror], props=['C08'], sub='matrix', mirror=True, chunk=50),
